@@ -270,6 +270,7 @@ func init() {
 	registerMath()
 	registerMisc()
 	registerUnique()
+	registerUnicode()
 }
 
 func (in *Interp) callerPos(th *Thread) string {
